@@ -1,7 +1,9 @@
 CONSTANTS
   MinSize = 6
   Variant = "impl"
-  MaxRecs = 2
+  MaxAn = 2
+  MaxNs = 1
+  MaxAr = 1
   MaxSize = 14
 INIT Init
 NEXT Next
